@@ -232,7 +232,7 @@ theorem firstR_sound (T : TiledTab src σ N) {f} (ih : CompSAt src σ N f) : ∀
       intro h
       simp only [Option.some.injEq, Prod.mk.injEq] at h
       obtain ⟨rfl, rfl⟩ := h
-      obtain ⟨g1, j, k, g2, g3, g4, g5, g6⟩ := ih.compound _ _ _ hN hc
+      obtain ⟨g1, j, k, g2, g3, g4, g5, g6, _⟩ := ih.compound _ _ _ hN hc
       exact ⟨g1, by simp, k, g2, by omega, by rw [lastEnd_single, g5], seqS_single g6⟩
     · intro h; cases h
   · exact simpleLine_sound T f _ _ _ hN
@@ -356,7 +356,8 @@ theorem ifAssembleR_sound (T : TiledTab src σ N) {j jt kt jb kb : Nat} {test : 
       (r3.length < r2.length ∧ s2 ≠ [] ∧ ∃ k, r3.length + 1 ≤ k ∧ k ≤ r2.length ∧ ElifsOK src σ r2.length k s2)))
     (h3 : PostOpt src σ r3 s3 r4) :
     ∃ k, r4.length + 1 ≤ k ∧ k ≤ j ∧ (ifAssembleR (S σ j) test body s2 s3).range = (S σ j, E σ k) ∧
-      WS src σ j k (ifAssembleR (S σ j) test body s2 s3) := by
+      WS src σ j k (ifAssembleR (S σ j) test body s2 s3) ∧
+      derivedEnd (ifAssembleR (S σ j) test body s2 s3) = some (ifAssembleR (S σ j) test body s2 s3).range.2 := by
   obtain ⟨e1, e2⟩ := h2
   obtain ⟨o1, o2⟩ := h3
   unfold ifAssembleR
@@ -373,7 +374,7 @@ theorem ifAssembleR_sound (T : TiledTab src σ N) {j jt kt jb kb : Nat} {test : 
   · -- no `elif`
     simp only [nestR]
     rcases hl2 with ⟨rfl, rfl⟩ | ⟨l1, l2, l3, l4, l5, l6, l7⟩
-    · refine ⟨kb, by omega, by omega, by simp [RStmt.range, ifEndR, hbe], ?_⟩
+    · refine ⟨kb, by omega, by omega, by simp [RStmt.range, ifEndR, hbe], ?_, by simp [derivedEnd, RStmt.range, ifEndR]⟩
       simp only [ifEndR, hbe]
       exact ws_if T (by omega) (by omega) hj ht (by omega) (by omega) (by omega) (by omega) hb (Nat.le_refl _) (by omega)
         (by omega) (by omega) hl (Or.inl rfl)
@@ -381,22 +382,26 @@ theorem ifAssembleR_sound (T : TiledTab src σ N) {j jt kt jb kb : Nat} {test : 
         cases s3 with
         | none => exact absurd rfl l1
         | some l => simpa [ifEndR] using l3
-      refine ⟨kl, by omega, by omega, by simp [RStmt.range, he], ?_⟩
-      rw [he]
-      subst l6
-      exact ws_if T (by omega) (by omega) hj ht (by omega) (by omega) (by omega) (by omega) hb (by omega) (by omega)
-        (by omega) (by omega) hl (Or.inr ⟨Nat.le_refl _, by omega, by omega, by omega⟩)
+      refine ⟨kl, by omega, by omega, by simp [RStmt.range, he], ?_, ?_⟩
+      · rw [he]
+        subst l6
+        exact ws_if T (by omega) (by omega) hj ht (by omega) (by omega) (by omega) (by omega) hb (by omega) (by omega)
+          (by omega) (by omega) hl (Or.inr ⟨Nat.le_refl _, by omega, by omega, by omega⟩)
+      · simp only [derivedEnd, RStmt.range, isEmpty_false_of_ne l2, he, l3]
+        simp
   · -- an `elif` chain
     obtain ⟨c, hc1, hc2⟩ := elifs_lastEnd e7 e4
     rcases hl2 with ⟨rfl, rfl⟩ | ⟨l1, l2, l3, l4, l5, l6, l7⟩
     · have he : ifEndR body s2 none = E σ k2 := by simp [ifEndR, hc1, hc2]
       obtain ⟨s', n1, n2, n3⟩ := nest_ok T s2 r2.length k2 k2 0 0 [] e7 e4 (by omega) (by omega) (Nat.le_refl _) seqS_nil
         (Or.inl rfl)
-      refine ⟨k2, by omega, by omega, by simp [RStmt.range, he], ?_⟩
-      rw [he]
-      simp only [Option.getD_none, n1]
-      exact ws_if T (by omega) (by omega) hj ht (by omega) (by omega) (by omega) (by omega) hb (by omega) (by omega)
-        (by omega) (by omega) (seqS_single n2) (Or.inr ⟨Nat.le_refl _, by omega, by omega, by omega⟩)
+      refine ⟨k2, by omega, by omega, by simp [RStmt.range, he], ?_, ?_⟩
+      · rw [he]
+        simp only [Option.getD_none, n1]
+        exact ws_if T (by omega) (by omega) hj ht (by omega) (by omega) (by omega) (by omega) hb (by omega) (by omega)
+          (by omega) (by omega) (seqS_single n2) (Or.inr ⟨Nat.le_refl _, by omega, by omega, by omega⟩)
+      · simp only [derivedEnd, he, Option.getD_none, n1, lastEnd_single, List.isEmpty_cons, Bool.false_eq_true, if_false]
+        rw [n3]; rfl
     · have he : ifEndR body s2 s3 = E σ kl := by
         cases s3 with
         | none => exact absurd rfl l1
@@ -404,10 +409,12 @@ theorem ifAssembleR_sound (T : TiledTab src σ N) {j jt kt jb kb : Nat} {test : 
       subst l6
       obtain ⟨s', n1, n2, n3⟩ := nest_ok T s2 r2.length k2 kl r3.length kl (s3.getD []) e7 e4 (by omega) (by omega)
         (by omega) hl (Or.inr ⟨by omega, Nat.le_refl _, by omega, by omega⟩)
-      refine ⟨kl, by omega, by omega, by simp [RStmt.range, he], ?_⟩
-      rw [he, n1]
-      exact ws_if T (by omega) (by omega) hj ht (by omega) (by omega) (by omega) (by omega) hb (by omega) (by omega)
-        (by omega) (by omega) (seqS_single n2) (Or.inr ⟨Nat.le_refl _, by omega, by omega, by omega⟩)
+      refine ⟨kl, by omega, by omega, by simp [RStmt.range, he], ?_, ?_⟩
+      · rw [he, n1]
+        exact ws_if T (by omega) (by omega) hj ht (by omega) (by omega) (by omega) (by omega) hb (by omega) (by omega)
+          (by omega) (by omega) (seqS_single n2) (Or.inr ⟨Nat.le_refl _, by omega, by omega, by omega⟩)
+      · simp only [derivedEnd, he, n1, lastEnd_single, List.isEmpty_cons, Bool.false_eq_true, if_false]
+        rw [n3]; rfl
 
 /-! ### the subject of `match` -/
 
@@ -490,10 +497,10 @@ theorem comp_compound (T : TiledTab src σ N) {n} (ih : BelowCompS src σ N n) :
        obtain ⟨b1, b2, kb, b3, b4, b5, b6⟩ := ih.suite _ _ _ (by omega) hb
        have c := ih.elifs _ _ _ (by omega) hc
        have e := ih.else_ _ _ _ (by omega) he
-       obtain ⟨k, g1, g2, g3, g4⟩ := ifAssembleR_sound T (j := _ + 1) hN t2 (by omega) (by omega) b6 b2 b5 (by omega) b4
+       obtain ⟨k, g1, g2, g3, g4, g5⟩ := ifAssembleR_sound T (j := _ + 1) hN t2 (by omega) (by omega) b6 b2 b5 (by omega) b4
          b3 (by omega) c e
        simp only [PostC, List.length_cons, L]
-       exact ⟨by omega, _, k, g1, g2, Nat.le_refl _, g3, g4⟩)
+       exact ⟨by omega, _, k, g1, g2, Nat.le_refl _, g3, g4, fun _ => rfl, g5⟩)
 
 theorem compSAt_of_below (T : TiledTab src σ N) {n : Nat} (b : BelowCompS src σ N n) : CompSAt src σ N n :=
   ⟨comp_suite T b, comp_block T b, comp_else T b, comp_finally T b, comp_elifs T b, comp_handlers T b, comp_cases T b,
